@@ -455,6 +455,33 @@ impl Model {
         out
     }
 
+    /// everything the engine touches when it links `roots`: like `cone`, but a valid node with an
+    /// invalid input still gets its other inputs linked (and made needed for a moment) before the
+    /// invalidity reaches it
+    pub fn link_cone(&self, roots: &[Tag]) -> Vec<Tag> {
+        let mut seen = vec![false; self.nodes.len()];
+        let mut out = vec![];
+        let mut stack: Vec<Tag> = roots.to_vec();
+        while let Some(t) = stack.pop() {
+            if !self.has(t) || seen[t as usize] {
+                continue;
+            }
+            seen[t as usize] = true;
+            out.push(t);
+            let n = self.node(t);
+            if !n.valid {
+                continue;
+            }
+            stack.extend(n.inputs.iter().copied());
+            if let Some(b) = &n.bind {
+                if let Some(r) = b.rhs {
+                    stack.push(r);
+                }
+            }
+        }
+        out
+    }
+
     /// does something needed from `roots` depend on an invalidated node (so that an observer is to
     /// read ObservingInvalid)?
     pub fn cone_touches_invalid(&self, roots: &[Tag]) -> bool {
